@@ -165,7 +165,11 @@ def cond_ok(m: np.ndarray) -> bool:
 
 
 def make_cfg(rng) -> dict:
-    return {"profile": "c06", "main_dim": rng.choice([1, 2, 2, 3, 3]), "n_steps": rng.choice([6, 10, 16, 24, 30]),
+    import os
+
+    deep = os.environ.get("GEOSIM_TIER") == "thorough"
+    return {"profile": "c06", "main_dim": rng.choice([1, 2, 2, 3, 3]),
+            "n_steps": rng.choice([6, 10, 16, 24, 30, 45, 60] if deep else [6, 10, 16, 24, 30]),
             "n_clients": 1, "big_coll": rng.random() < 0.3, "p_float": rng.choice([0.0, 0.5]), "p_complex": rng.choice([0.0, 0.0, 0.2]),
             "p_scaled": rng.choice([0.0, 0.4]), "p_degenerate": 0.0, "cold_start": rng.random() < 0.5, "warm": [],
             "p_law": rng.choice([0.35, 0.5])}
